@@ -4,16 +4,22 @@ Seeded histories over hierarchies of depth 1–4 on RTDC_Dict and RTDC_HDF5 root
 mask, contour, trace, the computed feature `area_um` and a temporary feature).  Operations:
 range edits at any level (biased towards *equal-cardinality* changes of an ancestor — the F04
 trigger — and towards making manually excluded events vanish and return), manual exclusion /
-re-inclusion at any level, temporary-feature assignment (root or youngest member), a root
-configuration change (pixel size → `area_um`), `rejuvenate()` of the youngest member.
+re-inclusion at any level, temporary-feature assignment at any member, a root configuration
+change (pixel size → `area_um`), `rejuvenate()` of the youngest member, and — in half of the
+histories — `rejuvenate()` / `set_temporary_feature` on an *intermediate* member, which refreshes
+only the chain above it (F32, seeded change C04-4), later followed by a refresh from the youngest.
 
-After every rejuvenate, per level:
+After every refresh, for the members it went through (all of them after a refresh from the
+youngest member):
 * the property's own oracle on the real objects:  `len(child) == sum(parent.filter.all)`,
   `child[feat] == parent[feat][parent.filter.all]` for every feature kind, manual exclusions
-  attached to root ids (M∩vis ⊆ excluded ⊆ Ever, root ids read from the identity feature
+  attached to root ids (excluded == M∩vis, root ids read from the identity feature
   `userdef0`), `filter.all == ranges(current config, current events) & manual`;
 * the Lean model (Drive/C04.lean, one run per check): ids, len, filter.all, filter.manual,
-  `_man_root_ids`; the tokens of every feature against root tokens at the model's ids.
+  `_man_root_ids`, `parent_changed` (for *all* members, also the stale ones below a partial
+  refresh); the tokens of every feature against root tokens at the model's ids.
+Scripted scenarios: error paths of unsynchronised hierarchies (`apply_manual_indices` must refuse
+on members below a partial refresh), the F32 history, and the corpus.
 """
 import json
 import time
@@ -26,7 +32,8 @@ ID = "C04"
 LEAN_MODULES = ["DclabModel.Properties.C04"]
 RULE = ("seeded histories of 10-80 operations over {set range at any level (50% equal-width "
         "shifts of an identity-feature window on an ancestor), manual exclude/re-include at any "
-        "level, temporary feature at root/youngest, pixel-size change, rejuvenate youngest} on "
+        "level, temporary feature at any member, pixel-size change, rejuvenate youngest, and in "
+        "50% of the histories rejuvenate / set_temporary_feature on an intermediate member} on "
         "hierarchies of depth 1-4 over RTDC_Dict / RTDC_HDF5 roots with 6-14 events; a history is "
         "non-trivial when at least one rejuvenate saw an ancestor change that kept the parent's "
         "boolean pattern of some deeper member or re-created a filter with hidden manual ids; "
@@ -39,16 +46,16 @@ TRUSTED_BASE = [
     "feature payloads are opaque tokens (harness/gen.py); the identity feature userdef0 carries "
     "the root index"]
 ASSUMPTIONS = [
-    "refreshes are issued from the youngest member (or by set_temporary_feature on the youngest "
-    "member / the root); set_temporary_feature on an intermediate member refreshes only the "
-    "chain above it and is outside the modelled histories (open finding F32)",
+    "set_temporary_feature is only called on members that are not stale themselves (assigning "
+    "data through a member whose ancestors were refreshed without it is a usage error: its "
+    "length and index maps are outdated)",
+    "while a member is stale (an ancestor was refreshed without it) 'the event at position p' "
+    "means the event its cached identity feature shows; its n-d features and len() are not read",
     "ranges are set as min/max pairs and never removed (removal is F03, property C03)",
     "'limit events' = 0 inside the hierarchy so that root ids determine the filters"]
 NOT_PROVED = [
     "polygon / invalid / limit-events filters inside a hierarchy (reduced to C03)",
-    "refresh of a non-youngest member while deeper members hold pending manual edits "
-    "(set_temporary_feature / rejuvenate on an intermediate member): open finding F32, "
-    "witness theorem intermediate_refresh_witness; the view theorem holds there too",
+    "feature data read from a stale member (below a partial refresh) before its own refresh",
     "ChildScalar ufunc caches (min/max/mean), config['calculation'] propagation"]
 
 TMP = "verif_tmp"
@@ -141,7 +148,6 @@ class Real:
         for _ in range(depth):
             self.lv.append(RTDC_Hierarchy(self.lv[-1]))
         self.M = [set() for _ in self.lv]
-        self.Ever = [set() for _ in self.lv]
         self.last_tmp = None
 
     def close(self):
@@ -178,17 +184,19 @@ class Real:
                     self.M[lvl].discard(r)
                 else:
                     self.M[lvl].add(r)
-                    self.Ever[lvl].add(r)
             elif op[0] == "rejuv":
                 self.lv[-1].rejuvenate()
+            elif op[0] == "rejuvat":
+                self.lv[op[1]].rejuvenate()
             elif op[0] == "tmp":
                 _, where, vals = op
-                ds = self.lv[0] if where == "root" else self.lv[-1]
+                lvl = tmp_level(op, self.depth)
+                ds = self.lv[lvl]
                 data = np.array((vals * (len(ds) // max(1, len(vals)) + 1))[:len(ds)], dtype=float)
-                old_ids = self.ids(0 if where == "root" else self.depth)
+                old_ids = self.ids(lvl)
                 feat_temp.set_temporary_feature(ds, TMP, data)
-                if where != "root":
-                    self.last_tmp = dict(zip(old_ids, data))
+                if lvl > 0:
+                    self.last_tmp = (lvl, dict(zip(old_ids, data)))
             elif op[0] == "pix":
                 self.lv[0].config["imaging"]["pixel size"] = op[1]
             else:
@@ -206,9 +214,10 @@ class Real:
         L = self.lv[i]
         bits = lambda a: "".join("1" if x else "0" for x in np.asarray(a))  # noqa: E731
         mr = [int(x) for x in getattr(L.filter, "_man_root_ids", [])]
-        return "len=%d ids=%s all=%s man=%s mr=%s" % (
+        pc = int(bool(L.filter.parent_changed)) if i > 0 else 0
+        return "len=%d ids=%s all=%s man=%s mr=%s pc=%d" % (
             len(L), ",".join(map(str, self.ids(i))), bits(L.filter.all), bits(L.filter.manual),
-            ",".join(map(str, mr)))
+            ",".join(map(str, mr)), pc)
 
     def tokens(self, i, rng, full):
         """{feature: [(position, token)]} of level i (n-d kinds sampled unless `full`)"""
@@ -222,14 +231,16 @@ class Real:
             out["trace/" + tn] = [(p, tok("trace/" + tn, L["trace"][tn][p])) for p in pos]
         return out
 
-    def oracle(self, rng, full):
-        """the property's own statement evaluated on the real objects; list of failures"""
+    def oracle(self, rng, full, upto=None):
+        """the property's own statement evaluated on the real objects (members 0..upto, i.e.
+        the ones the last refresh went through); list of failures"""
         bad = []
+        upto = self.depth if upto is None else upto
         root = self.lv[0]
         rtmp = np.asarray(root[TMP][:])
         rarea = np.asarray(root["area_um"][:])
         rtoks = self.spec["tokens"]
-        for i in range(len(self.lv)):
+        for i in range(upto + 1):
             L = self.lv[i]
             try:
                 ids = self.ids(i)
@@ -238,7 +249,8 @@ class Real:
                     P = self.lv[i - 1]
                     pall = np.asarray(P.filter.all)
                     if n != int(pall.sum()) or len(ids) != n:
-                        bad.append(f"L{i}: len {n} != count(parent.filter.all) {int(pall.sum())}")
+                        bad.append(f"L{i}: len {n} / {len(ids)} scalar values, but the parent's "
+                                   f"filter selects {int(pall.sum())} events")
                         continue
                     sel = np.where(pall)[0]
                     for f in FILT + ["deform", "area_um", TMP]:
@@ -272,12 +284,12 @@ class Real:
                 excluded = {r for r, m in zip(ids, man) if not m}
                 vis = set(ids)
                 lost = (self.M[i] & vis) - excluded
-                extra = excluded - self.Ever[i]
+                extra = excluded - self.M[i]
                 if lost:
                     bad.append(f"L{i}: manual exclusion lost for visible root events {sorted(lost)}")
                 if extra:
-                    bad.append(f"L{i}: root events {sorted(extra)} excluded although the user never "
-                               f"excluded them")
+                    bad.append(f"L{i}: root events {sorted(extra)} excluded although the user did "
+                               f"not exclude them (or re-included them)")
                 # the level's filter is the configured one on its current events
                 want = man.copy()
                 cfg = L.config["filtering"]
@@ -295,9 +307,10 @@ class Real:
                 bad.append(f"L{i}: reading the refreshed level raised {type(e).__name__}")
         if self.last_tmp is not None:
             # the data were assigned to the events the user saw; events that joined are NaN
-            want = np.array([self.last_tmp.get(r, np.nan) for r in self.ids(self.depth)])
-            if not np.array_equal(np.asarray(self.lv[-1][TMP][:]), want, equal_nan=True):
-                bad.append("youngest: temporary feature differs from the data just assigned")
+            lvl, assigned = self.last_tmp
+            want = np.array([assigned.get(r, np.nan) for r in self.ids(lvl)])
+            if not np.array_equal(np.asarray(self.lv[lvl][TMP][:]), want, equal_nan=True):
+                bad.append(f"L{lvl}: temporary feature differs from the data just assigned")
         return bad
 
 
@@ -311,6 +324,8 @@ def gen_history(rng, spec, depth, real, nops):
     """
     n = spec["n"]
     style = "shift" if depth >= 2 and rng.random() < 0.6 else "mixed"
+    partial = depth >= 2 and rng.random() < 0.5      # refreshes of intermediate members, too
+    synced_upto = depth                              # members above this one may be stale
     low = [0] if depth < 3 or rng.random() < 0.6 else [0, 1]        # members that carry windows
     deep = list(range(max(low) + 2, depth + 1)) or [depth]
     windows = {}
@@ -318,7 +333,15 @@ def gen_history(rng, spec, depth, real, nops):
     last = None
     for _ in range(nops):
         x = rng.random()
-        if since > 6 or x < 0.22:
+        if partial and since > 0 and rng.random() < 0.10:
+            # refresh an intermediate member only; usually followed by more edits and, at the
+            # latest after a few operations, by a refresh from the youngest member
+            k = rng.randrange(1, depth)
+            if k <= synced_upto and rng.random() < 0.5:
+                op = ("tmp", k, [float(rng.randint(0, 30)) for _ in range(rng.randint(1, 4))])
+            else:
+                op = ("rejuvat", k)
+        elif since > 6 or x < 0.22:
             op = ("rejuv",)
         elif x < 0.56:
             if rng.random() < (0.75 if style == "shift" else 0.35):
@@ -355,27 +378,45 @@ def gen_history(rng, spec, depth, real, nops):
                 op = ("man", lvl, rng.randrange(ln), 0 if rng.random() < 0.92 else 1)
         elif x < 0.96:
             vals = [float(rng.randint(0, 30)) for _ in range(rng.randint(1, 5))]
-            op = ("tmp", rng.choice(["root", "young"]), vals)
+            where = rng.choice(["root", "young"])
+            # (assigning through a stale member is a usage error: refresh it first)
+            op = ("tmp", where, vals) if where == "root" or synced_upto == depth else ("rejuv",)
         else:
             op = ("pix", rng.choice([0.34, 0.25, 0.5]))
-        since = 0 if is_refresh(op) else since + 1
+        rl = refresh_level(op, depth)
+        if rl is not None:
+            synced_upto = rl if rl < depth else depth
+        since = 0 if rl == depth else since + 1
         last = op
         yield op
     if last is not None and last[0] != "rejuv":
         yield ("rejuv",)
 
 
-def is_refresh(op):
-    return op[0] == "rejuv" or (op[0] == "tmp" and op[1] == "young")
+def tmp_level(op, depth):
+    w = op[1]
+    return 0 if w == "root" else depth if w == "young" else int(w)
 
 
-def op_line(op):
+def refresh_level(op, depth):
+    """the member whose rejuvenate() the op calls (None: no refresh)"""
+    if op[0] == "rejuv":
+        return depth
+    if op[0] == "rejuvat":
+        return op[1]
+    if op[0] == "tmp" and tmp_level(op, depth) > 0:
+        return tmp_level(op, depth)
+    return None
+
+
+def op_line(op, depth):
     if op[0] == "set":
         return "set %d %d %d %d" % op[1:]
     if op[0] == "man":
         return "man %d %d %d" % op[1:]
-    if is_refresh(op):
-        return "rejuv"
+    k = refresh_level(op, depth)
+    if k is not None:
+        return "rejuv" if k == depth else f"rejuvat {k}"
     return None
 
 
@@ -384,10 +425,10 @@ def execute(ctx, spec, depth, ops, rng, lines=None, expect=None, full_last=True,
     When `lines` is given, the protocol lines for the model and the real answers are appended."""
     real = Real(ctx, spec, depth)
     fails = []
-    info = {"f04_trigger": False, "hidden": False, "refreshes": 0, "errs": 0}
+    info = {"f04_trigger": False, "hidden": False, "refreshes": 0, "errs": 0, "partial": 0}
     try:
         if lines is not None:
-            lines.append(f"new 1 {spec['n']} {depth}")
+            lines.append(f"new 1 1 {spec['n']} {depth}")
             expect.append(("ok", None))
             for col in (list(range(spec["n"])), spec["area_cvx"], spec["bright_avg"]):
                 lines.append("feat " + " ".join(str(v) for v in col))
@@ -411,14 +452,15 @@ def execute(ctx, spec, depth, ops, rng, lines=None, expect=None, full_last=True,
                         break
                 k += 1
                 done.append(op)
-                refresh = is_refresh(op)
+                rl = refresh_level(op, depth)
+                refresh = rl is not None
                 if refresh:
                     before = [(np.asarray(L.filter.all).copy(), real.ids(i))
                               for i, L in enumerate(real.lv)]
                 ans = real.apply(op)
                 if ans != "ok":
                     info["errs"] += 1
-                ln = op_line(op)
+                ln = op_line(op, depth)
                 if lines is not None and ln is not None:
                     lines.append(ln)
                     expect.append((ans, ("op", len(done) - 1)))
@@ -431,8 +473,10 @@ def execute(ctx, spec, depth, ops, rng, lines=None, expect=None, full_last=True,
                         full = full_last and k == len(pending)
                     else:
                         full = rng.random() < 0.15
-                    bad = real.oracle(rng, full)
-                    for i in range(1, depth + 1):
+                    if rl < depth:
+                        info["partial"] += 1
+                    bad = real.oracle(rng, full, upto=rl)
+                    for i in range(1, rl + 1):
                         pa_old, _ = before[i - 1]
                         _, ids_old = before[i]
                         pa_new = np.asarray(real.lv[i - 1].filter.all)
@@ -445,9 +489,11 @@ def execute(ctx, spec, depth, ops, rng, lines=None, expect=None, full_last=True,
                     if lines is not None:
                         for i in range(depth + 1):
                             lines.append(f"state {i}")
-                            expect.append((real.canon(i), ("state", i, len(done) - 1)))
-                        toks = {i: real.tokens(i, rng, full) for i in range(depth + 1)}
-                        expect[-1] = (expect[-1][0], ("state", depth, len(done) - 1, toks))
+                            expect.append((real.canon(i), ("state", i, len(done) - 1, i <= rl)))
+                        # members below the refreshed one are stale: their n-d data are not read
+                        toks = {i: real.tokens(i, rng, full) for i in range(rl + 1)}
+                        expect[-1] = (expect[-1][0],
+                                      ("state", depth, len(done) - 1, depth <= rl, toks))
                     if bad:
                         fails.extend(bad)
                         break
@@ -476,12 +522,14 @@ def drop_level(ops, depth, j):
     """remove hierarchy level j (1 ≤ j ≤ depth) from a history"""
     out = []
     for op in ops:
-        if op[0] in ("set", "man"):
+        if op[0] in ("set", "man", "rejuvat") or (op[0] == "tmp" and isinstance(op[1], int)):
             lvl = op[1]
             if lvl == j:
                 continue
             if lvl > j:
                 op = (op[0], lvl - 1) + tuple(op[2:])
+            if op[0] in ("rejuvat", "tmp") and op[1] >= depth - 1:
+                op = ("rejuv",) if op[0] == "rejuvat" else ("tmp", "young", op[2])
         out.append(op)
     return out
 
@@ -524,8 +572,10 @@ def script(spec, depth, ops):
             s.append(f"L[{op[1]}].filter.manual[{op[2]}] = {bool(op[3])}")
         elif op[0] == "rejuv":
             s.append(f"L[{depth}].rejuvenate()")
+        elif op[0] == "rejuvat":
+            s.append(f"L[{op[1]}].rejuvenate()")
         elif op[0] == "tmp":
-            s.append(f"set_temporary_feature(L[{0 if op[1] == 'root' else depth}], '{TMP}', "
+            s.append(f"set_temporary_feature(L[{tmp_level(op, depth)}], '{TMP}', "
                      f"cycle({op[2]}))")
         elif op[0] == "pix":
             s.append(f"L[0].config['imaging']['pixel size'] = {op[1]}")
@@ -571,7 +621,7 @@ def _error_paths(ctx):
     except Exception as e:
         got.append(common.err_class(e))
     before = list(c1.filter._man_root_ids)
-    c1.filter.retrieve_manual_indices(c1)     # must ignore
+    c1.filter.retrieve_manual_indices(c1)     # must not be confused by the changed parent
     got.append("kept" if list(c1.filter._man_root_ids) == before else "changed")
     c2.rejuvenate()
     try:
@@ -579,14 +629,37 @@ def _error_paths(ctx):
         got.append("ok" if not c1.filter.manual[0] and c1.filter._man_root_ids == [1] else "wrong")
     except BaseException as e:
         got.append(common.err_class(e))
+    # a member two levels below a partial refresh must know that its parent changed
+    # (`apply_manual_indices` is documented to refuse working on an outdated index mapping)
+    d1 = RTDC_Hierarchy(open_root(ctx, spec))
+    d2 = RTDC_Hierarchy(d1)
+    d3 = RTDC_Hierarchy(d2)
+    d1.hparent.config["filtering"]["userdef0 min"] = 2.0
+    d1.hparent.config["filtering"]["userdef0 max"] = float(spec["n"] - 1)
+    d1.rejuvenate()                           # root and d1 only
+    deep = []
+    for ch in (d2, d3):
+        deep.append(bool(ch.filter.parent_changed))
+        try:
+            ch.filter.apply_manual_indices(ch, [2])
+            deep.append("ok")
+        except hfilter.HierarchyFilterError:
+            deep.append("err:hierarchy")
+        except Exception as e:
+            deep.append(common.err_class(e))
     ctx.stat("error_path_checks")
+    if deep != [True, "err:hierarchy", True, "err:hierarchy"]:
+        ctx.violation("spec", f"members below a partially refreshed hierarchy answered {deep} to "
+                              f"(parent_changed, apply_manual_indices), expected "
+                              f"[True, 'err:hierarchy', True, 'err:hierarchy']",
+                      {"part": "error_paths"})
     if got != ["err:hierarchy", "kept", "ok"]:
         ctx.violation("spec", f"unsynchronised-hierarchy error paths answered {got}, expected "
                               f"['err:hierarchy', 'kept', 'ok']", {"part": "error_paths"})
 
 
 def intermediate_refresh(ctx):
-    """open finding F32 (Properties/C04.lean: intermediate_refresh_witness) replayed on dclab"""
+    """F32 (Properties/C04.lean: intermediate_refresh_witness, history h1) replayed on dclab"""
     from dclab.rtdc_dataset import RTDC_Hierarchy, feat_temp
     try:
         spec = {"kind": "dict", "n": 12, "tokens": list(range(12)),
@@ -606,14 +679,18 @@ def intermediate_refresh(ctx):
         ctx.violation("spec", f"intermediate-refresh scenario raised {type(e).__name__}",
                       {"part": "intermediate_refresh"})
         return
-    ctx.stat("known_finding_replays")
+    ctx.stat("f32_scenario_replays")
     if not view_ok:
         ctx.violation("spec", "after an intermediate refresh and a refresh of the youngest member "
                               "the child is not the view of its parent",
                       {"part": "intermediate_refresh"})
     if 5 in ids and 5 not in excluded:
-        ctx.known("F32", "refreshing an intermediate member (set_temporary_feature on L1) after an "
-                          "ancestor change loses the pending manual exclusion of root event 5 at L2")
+        ctx.violation("spec", "F32: refreshing an intermediate member (set_temporary_feature on L1) "
+                              "after an ancestor change loses the pending manual exclusion of root "
+                              "event 5 at L2",
+                      {"root": {k: v for k, v in spec.items()}, "depth": 2,
+                       "ops": [["man", 2, 5, 0], ["set", 0, 0, 2, 7], ["tmp", 1, [1.0]], ["rejuv"]],
+                       "part": "intermediate_refresh"})
 
 
 def norm_ops(ops):
@@ -673,6 +750,9 @@ def run(ctx):
         ctx.stat(f"root_{spec['kind']}")
         ctx.stat("ops", len(ops))
         ctx.stat("refreshes", info["refreshes"])
+        ctx.stat("refreshes_of_intermediate_members", info["partial"])
+        if info["partial"]:
+            ctx.stat("histories_with_partial_refresh")
         ctx.stat("op_errors(err:index)", info["errs"])
         if info["f04_trigger"]:
             ctx.stat("histories_with_same_pattern_other_events")
@@ -700,14 +780,19 @@ def run(ctx):
             if tag and tag[0] == "state":
                 model = got.split(" view=")[0]
                 flags = got[len(model):]
+                if not tag[3]:
+                    # stale member: `_length` may or may not be cached in dclab; not compared
+                    model, want = model.split(" ", 1)[1], want.split(" ", 1)[1]
                 if model != want:
                     diffs.append((spec, depth, ops[:tag[2] + 1], lines[j], want, got))
                     break
-                if flags.strip() != "view=1 low=1 up=1 spec=1":
+                fl = flags.split()
+                must = fl if tag[3] else [x for x in fl if x[:3] in ("low", "up=")]
+                if any(not x.endswith("=1") for x in must):
                     ctx.violation("mirror", f"the model's own spec flags are '{flags.strip()}' on "
                                             f"a history (theorems say 1)", {"line": lines[j]})
-                if len(tag) > 3:
-                    bad = token_diff(spec, depth, tag[3], out, j)
+                if len(tag) > 4:
+                    bad = token_diff(spec, depth, tag[4], out, j)
                     if bad:
                         diffs.append((spec, depth, ops[:tag[2] + 1], lines[j], bad, "tokens"))
                         break
@@ -748,7 +833,7 @@ def run(ctx):
 def token_diff(spec, depth, toks, out, j):
     """tokens read from the real levels vs root tokens at the *model's* ids"""
     rt = spec["tokens"]
-    for i in range(depth + 1):
+    for i in sorted(toks):
         line = out[j - depth + i]
         ids = line.split(" ids=")[1].split(" ")[0]
         ids = [int(x) for x in ids.split(",")] if ids else []
